@@ -153,7 +153,40 @@ def replay_empty_domain(args):
     return False, f"returned {r}"
 
 
-REPLAYERS = {"hadronic": replay_hadronic, "partonic": replay_partonic, "cc_point": replay_cc_point,
+def replay_wiring(args):
+    """floats: three well separated masses; the heavy component's kernels must carry the mass of their own flavour"""
+    import yadism.coefficient_functions as cf
+
+    m2 = [2.0, 20.0, 30000.0]
+    Q2 = 70.0
+    cc = cm.make_coupling(cm.ew_params(values={}), args["proc"], 12 if args["proc"] == "CC" else 11)
+    cfg = cm.make_configs(cc, pto=args["pto"], pto_evol=min(args["pto"], 2), scheme=args["sch"], nf_ff=args["nf"], ZMq=tuple(args["zm"]),
+                          m2hq=m2, threshold=args["nf"])
+    with cm.fixed_nf():
+        esf_ = cm.make_esf(cfg, f"{args['kind']}_{args['flav']}", 0.1, Q2)
+        comps = cf.Combiner(esf_).collect()
+    want = dict(charm=m2[0], bottom=m2[1], top=m2[2])
+    bad = []
+    for comp in comps:
+        if comp.heavy == "light":
+            continue
+        for k in comp:
+            c = k.coeff
+            vals_ = []
+            for a in ("m2hq", "m1sq", "m2sq"):
+                if hasattr(c, a):
+                    vals_.append((a, getattr(c, a)))
+            if hasattr(c, "labda") and not hasattr(c, "m2hq"):
+                vals_.append(("labda", Q2 / c.labda - Q2))
+            if hasattr(c, "L") and not vals_:
+                vals_.append(("L", Q2 / math.exp(c.L)))
+            for a, v in vals_:
+                if abs(v - want[comp.heavy]) > 1e-9 * want[comp.heavy]:
+                    bad.append((comp.heavy, type(c).__name__, a, v))
+    return (True, f"{args['kind']}_{args['flav']} {args['proc']} {args['sch']} nf={args['nf']}: {bad[:4]}") if bad else (False, "masses wired correctly")
+
+
+REPLAYERS = {"wiring": replay_wiring, "hadronic": replay_hadronic, "partonic": replay_partonic, "cc_point": replay_cc_point,
              "empty_domain": replay_empty_domain}
 
 
@@ -222,6 +255,79 @@ def run(chk, only=None):
                                       replay=lambda m, ctx=ctx, base=base, part=part: ("partonic", dict(base, part=part, **vals(ctx, m))),
                                       what=f"{lab}: integrand {part}(z) not forced to zero beyond the partonic threshold")
     chk.section("inventory", heavy_nc_classes=len(classes), rsl_paths=ncls)
+    # ---- the threshold is the one of the RIGHT quark: mass wiring through the real Combiner / kernel generators ----
+    if only in (None, "wiring"):
+        import itertools
+
+        cells = list(itertools.product(["F2", "FL", "F3", "g1"], ["total", "charm", "bottom", "top"], ["EM", "NC", "CC"],
+                                       [("FFNS", 3, (False, False, False)), ("FFNS", 4, (True, False, False)), ("FFN0", 3, (False, False, False)),
+                                        ("FONLL-FFNS", 4, (True, False, True))], [1, 2]))
+        nw = 0
+        for kind, flav, proc, (sch, nf, zm), pto in cells:
+            if proc == "CC" and kind == "g1":
+                continue
+            if chk.tier == "quick" and (len(kind) + len(flav) + len(proc) + nf + pto + len(sch)) % 3:
+                continue
+            cname = f"wiring:{kind}_{flav}/{proc}/{sch}/nf{nf}/pto{pto}"
+            with Ctx(chk.seed) as ctx, cm.fixed_nf(), stubs.cf_stubs():
+                def body(kind=kind, flav=flav, proc=proc, sch=sch, nf=nf, zm=zm, pto=pto):
+                    import yadism.coefficient_functions as cf
+
+                    Q2 = ctx.var("Q2", 0, None, wlo=50, whi=90)
+                    m2 = [ctx.var("m2c", 0, None, wlo=1, whi=3), ctx.var("m2b", 0, None, wlo=15, whi=25), ctx.var("m2t", 0, None, wlo=200, whi=300)]
+                    cc = cm.make_coupling(cm.ew_params(values={}), proc, 12 if proc == "CC" else 11)
+                    cfg = cm.make_configs(cc, pto=pto, pto_evol=min(pto, 2), scheme=sch, nf_ff=nf, ZMq=zm, m2hq=m2, threshold=nf)
+                    esf_ = cm.make_esf(cfg, f"{kind}_{flav}", 0.1, Q2)
+                    out = []
+                    for comp in cf.Combiner(esf_).collect():
+                        for k in comp:
+                            out.append((comp.heavy, k, Q2, m2))
+                    return out
+
+                ex = explore.Explorer(ctx, max_paths=16, timeout_ms=3000)
+                paths = ex.run(body)
+                chk.paths += len(paths)
+                for i, p in enumerate(paths):
+                    ctx.assign = dict(p.assign)
+                    if p.kind == "exc":
+                        chk.notes.append(f"{cname}/path{i}: raises {type(p.value).__name__}: {str(p.value)[:80]} (C16)")
+                        continue
+                    light_missing = []
+                    for comp_name, k, Q2, m2 in p.value:
+                        c = k.coeff
+                        mod = type(c).__module__
+                        masses = {"charm": m2[0], "bottom": m2[1], "top": m2[2]}
+                        got = []
+                        if hasattr(c, "m2hq"):
+                            got.append(("m2hq", c.m2hq))
+                        if hasattr(c, "m1sq"):
+                            got.append(("m1sq", c.m1sq))
+                        if hasattr(c, "m2sq"):
+                            got.append(("m2sq", c.m2sq))
+                        if hasattr(c, "labda") and not hasattr(c, "m2hq"):
+                            got.append(("Q2/labda-Q2", Q2 / c.labda - Q2))
+                        if hasattr(c, "L") and not hasattr(c, "m2hq"):
+                            pass  # asymptotic classes keep only L = log(Q2/m2): compared below through the atom
+                        if comp_name == "light":
+                            if got:
+                                light_missing.append((type(c).__name__, got))
+                            continue
+                        want = masses[comp_name]
+                        for nm, v in got:
+                            nw += 1
+                            chk.prove(f"{cname}/path{i}: {type(c).__name__}.{nm} is the {comp_name} mass", S.lift(v).t == want.t, ctx.facts() + p.pc,
+                                      key=f"wiring:{mod.split('.')[-2]}.{type(c).__name__}:{comp_name}",
+                                      replay=lambda m_, kind=kind, flav=flav, proc=proc, sch=sch, nf=nf, zm=zm, pto=pto, comp_name=comp_name, cn=type(c).__name__, nm=nm:
+                                      ("wiring", dict(kind=kind, flav=flav, proc=proc, sch=sch, nf=nf, zm=list(zm), pto=pto, comp=comp_name, cls=cn, attr=nm)),
+                                      what=f"{cname}: the {comp_name} contribution is computed with another quark's mass ({type(c).__name__}.{nm})")
+                        if hasattr(c, "L") and not got:
+                            nw += 1
+                            chk.prove(f"{cname}/path{i}: {type(c).__name__}.L = log(Q2/m_{comp_name}^2)", S.lift(c.L).t == S.lift(np.log(Q2 / want)).t,
+                                      ctx.facts() + p.pc, key=f"wiring:{mod.split('.')[-2]}.{type(c).__name__}:{comp_name}:L",
+                                      replay=lambda m_, kind=kind, flav=flav, proc=proc, sch=sch, nf=nf, zm=zm, pto=pto, comp_name=comp_name, cn=type(c).__name__:
+                                      ("wiring", dict(kind=kind, flav=flav, proc=proc, sch=sch, nf=nf, zm=list(zm), pto=pto, comp=comp_name, cls=cn, attr="L")),
+                                      what=f"{cname}: asymptotic {comp_name} contribution uses another quark's mass")
+        chk.section("wiring", cells=len(cells), mass_claims=nw)
     # ---- charged current: slow rescaling point and empty domain ----
     for mname, cname, cls in heavy_cc_classes():
         chk.encode(cls)
